@@ -305,7 +305,7 @@ def run_case(case):
                 viol.append({"clause": "pool-not-conserved", "subject": "quiescence", "detail": f"pool holds {pool} after all sessions ended, configured {sorted(ports)}"})
             if case["final"] != "close" and not closed_by_cut and "close_task" not in info:
                 await probe()
-                await asyncio.wait_for(server.close(), 1e4)
+                await common.close_server(server, viol)
             elif "close_task" in info:
                 await asyncio.wait_for(asyncio.shield(info["close_task"]), 1e4)
             await asyncio.sleep(1.0)
